@@ -1,6 +1,6 @@
 /-
 C15 — rebinning and resampling conserve counts and physical positions: the property theorems.
-Proofs are in `ProofsSSRB`, `ProofsGroup`, `ProofsData`, `ProofsTof`, `ProofsBins`, `ProofsTotal`, `ProofsPhi`, `ProofsZoom`; this file only states them.
+Proofs are in `ProofsSSRB`, `ProofsGroup`, `ProofsData`, `ProofsTof`, `ProofsBins`, `ProofsTotal`, `ProofsPhi`, `ProofsZoom`, `ProofsInverse`; this file only states them.
 
 Units: axial coordinate `m` in quarter ring spacings (`Seg.m4`), TOF positions in unmashed TOF bins, image coordinates in `ℚ`.
 -/
@@ -10,6 +10,7 @@ import StirVerif.C15.ProofsTotal
 import StirVerif.C15.ProofsTof
 import StirVerif.C15.ProofsPhi
 import StirVerif.C15.ProofsZoom
+import StirVerif.C15.ProofsInverse
 
 namespace StirVerif.C15
 open StirVerif.C01 Finset
@@ -74,7 +75,7 @@ theorem C15_ssrb_commutes_with_binning (pin pout : PDI) (kSeg kView trim maxSegA
 
 /-- "histogramming at the coarse sampling equals histogramming finely and then rebinning", bin by bin, with the exact account of
     trimming: the output geometry's bin `bo` of the pair is written (`∈ targets`) exactly when it lies inside the output's tangential and
-    TOF ranges; and (TOF output, `kSeg` odd) nothing but `bo` is written for that input bin. -/
+    TOF ranges; and (`kSeg` odd; TOF output or non-TOF output with TOF range 0..0) nothing but `bo` is written for that input bin. -/
 theorem C15_ssrb_targets_exact (pin pout : PDI) (kSeg kView trim maxSegArg kTof : Int)
     (hinfo : ssrbInfo pin kSeg kView trim maxSegArg kTof = some pout) (hk : 0 < kSeg) (hodd : kSeg % 2 = 1) (wf : pin.WF)
     (mIn W : Int) (hmash : pin.N.tdiv 2 = pin.numViews * mIn) (hmIn : 0 < mIn) (hV : pin.numViews = W * kView) (hW : 0 < W)
@@ -85,16 +86,17 @@ theorem C15_ssrb_targets_exact (pin pout : PDI) (kSeg kView trim maxSegArg kTof 
     (hbit : pin.minTang ≤ bi.tang ∧ bi.tang ≤ pin.maxTang)
     (hbo : pout.toGeom.binForDetPair dp = some bo) :
     (bo ∈ targets pin pout bi ↔ (pout.minTang ≤ bo.tang ∧ bo.tang ≤ pout.maxTang ∧ pout.minTof ≤ bo.tof ∧ bo.tof ≤ pout.maxTof)) ∧
-    (0 < pout.tofMash → ∀ x ∈ targets pin pout bi, x = bo) :=
+    ((0 < pout.tofMash ∨ (pout.minTof = 0 ∧ pout.maxTof = 0)) → ∀ x ∈ targets pin pout bi, x = bo) :=
   ssrb_targets_exact pin pout kSeg kView trim maxSegArg kTof hinfo hk hodd wf mIn W hmash hmIn hV hW hkV htof0 dp hv bi bo hbi hbir hbit hbo
 
-/-- no double counting: an input sinogram is added into at most one output sinogram (odd `kSeg`, TOF output) -/
+/-- no double counting: an input sinogram is added into at most one output sinogram (odd `kSeg`; TOF output or a single output TOF position) -/
 theorem C15_ssrb_no_double_counting (pin pout : PDI) (kSeg kView trim maxSegArg kTof : Int)
     (hinfo : ssrbInfo pin kSeg kView trim maxSegArg kTof = some pout) (hk : 0 < kSeg) (hodd : kSeg % 2 = 1) (wf : pin.WF)
-    (htof : 0 < pout.tofMash) (os oa ot os' oa' ot' is ia it : Int)
+    (os oa ot os' oa' ot' is ia it : Int)
+    (htof : 0 < pout.tofMash ∨ (pout.minTof = pout.maxTof ∧ pout.minTof ≤ ot ∧ ot ≤ pout.maxTof ∧ pout.minTof ≤ ot' ∧ ot' ≤ pout.maxTof))
     (h : pullsSino pin pout os oa ot is ia it = true) (h' : pullsSino pin pout os' oa' ot' is ia it = true) :
     os = os' ∧ oa = oa' ∧ ot = ot' :=
-  pullsSino_unique pin pout kSeg kView trim maxSegArg kTof hinfo hk hodd wf htof os oa ot os' oa' ot' is ia it h h'
+  pullsSino_unique pin pout kSeg kView trim maxSegArg kTof hinfo hk hodd wf os oa ot os' oa' ot' is ia it htof h h'
 
 /-- the scan of `SSRB(out, in)` over the input segments recovers exactly the group each output segment was built from -/
 theorem C15_ssrb_segment_group (pin : PDI) (wf : pin.WF) (kSeg os : Int) (og : Seg) (hk : 0 ≤ kSeg.tdiv 2)
@@ -111,19 +113,18 @@ theorem C15_ssrb_total_account (pin pout : PDI) (data out : List (Bin × Rat)) (
     total out = (data.map fun bv => bv.2 * ((targets pin pout bv.1).length : Rat)).sum :=
   ssrbData_total pin pout data out h
 
-/-- every input bin is added into at most one output bin (odd `kSeg`, TOF output) -/
+/-- every input bin is added into at most one output bin (odd `kSeg`; TOF output or a single output TOF position) -/
 theorem C15_ssrb_at_most_one_target (pin pout : PDI) (kSeg kView trim maxSegArg kTof : Int)
     (hinfo : ssrbInfo pin kSeg kView trim maxSegArg kTof = some pout) (hk : 0 < kSeg) (hodd : kSeg % 2 = 1) (wf : pin.WF)
-    (htof : 0 < pout.tofMash) (b : Bin) : (targets pin pout b).length ≤ 1 :=
+    (htof : 0 < pout.tofMash ∨ pout.minTof = pout.maxTof) (b : Bin) : (targets pin pout b).length ≤ 1 :=
   targets_length_le_one pin pout kSeg kView trim maxSegArg kTof hinfo hk hodd wf htof b
 
 /-- **`ssrb_conserves_total`** "total counts are conserved when no range is trimmed", with the exact account otherwise: the output total
     is the total of the input bins that have a target; if every input bin has one (by `C15_ssrb_targets_exact`: the bin of every detector
-    pair whose output bin lies inside the output's tangential / TOF ranges), the total is conserved.  (TOF output; for non-TOF output
-    the uniqueness of the TOF index is not proved — the implementation oracle checks conservation there.) -/
+    pair whose output bin lies inside the output's tangential / TOF ranges), the total is conserved.  (TOF output, or a single output TOF position as for non-TOF data.) -/
 theorem C15_ssrb_conserves_total (pin pout : PDI) (kSeg kView trim maxSegArg kTof : Int)
     (hinfo : ssrbInfo pin kSeg kView trim maxSegArg kTof = some pout) (hk : 0 < kSeg) (hodd : kSeg % 2 = 1) (wf : pin.WF)
-    (htof : 0 < pout.tofMash) (data out : List (Bin × Rat)) (h : ssrbData pin pout false data = some out) :
+    (htof : 0 < pout.tofMash ∨ pout.minTof = pout.maxTof) (data out : List (Bin × Rat)) (h : ssrbData pin pout false data = some out) :
     total out = total (data.filter fun bv => (targets pin pout bv.1).length != 0) ∧
     ((∀ bv ∈ data, targets pin pout bv.1 ≠ []) → total out = total data) :=
   ssrb_conserves_total pin pout kSeg kView trim maxSegArg kTof hinfo hk hodd wf htof data out h
@@ -215,6 +216,27 @@ theorem C15_zoom_axis_com_bound (n m : ℕ) (inv : ℕ → ℚ) (ilo olo : ℤ) 
     |(∑ i ∈ range m, out i * cOut i) / (∑ i ∈ range m, out i) - (∑ j ∈ range n, inv j * cIn j) / (∑ j ∈ range n, inv j)|
       ≤ (vin + vin / zoom) / 2 :=
   zoom_axis_com_bound n m inv ilo olo zoom offset vin hz hv hl hr hpos htot
+
+
+/-! ## `inverse_SSRB` -/
+
+/-- every output sinogram of `inverse_SSRB` is a convex combination of direct sinograms (non-negative weights summing to one) -/
+theorem C15_inverse_ssrb_convex (ms : List ℚ) (outM tol : ℚ) (htol : 0 ≤ tol) (ws : List (Nat × ℚ))
+    (h : inverseSsrbWeights ms outM tol = some ws) : (∀ w ∈ ws, 0 ≤ w.2) ∧ (ws.map (·.2)).sum = 1 :=
+  (inverseSsrb_shape ms outM tol htol ws h).convex
+
+/-- "physical positions": a copy comes from the direct sinogram within `tol` of the output's `m`; a combination of two direct
+    sinograms has weighted mean axial position equal to the output's `m` whenever that lies between the two -/
+theorem C15_inverse_ssrb_position (ms : List ℚ) (outM tol : ℚ) (htol : 0 ≤ tol) (ws : List (Nat × ℚ))
+    (h : inverseSsrbWeights ms outM tol = some ws) :
+    (∃ a, ws = [(a, 1)] ∧ |outM - ms.getD a 0| ≤ tol) ∨
+    (∃ a b wa wb, ws = [(a, wa), (b, wb)] ∧
+      ((ms.getD a 0 ≤ outM ∧ outM ≤ ms.getD b 0) ∨ (ms.getD b 0 ≤ outM ∧ outM ≤ ms.getD a 0) →
+        wa * ms.getD a 0 + wb * ms.getD b 0 = outM)) :=
+  (inverseSsrb_shape ms outM tol htol ws h).position
+
+/-- direct sinograms at m = 0, 4, 8 and an output sinogram at m = 3: weights ¾ on m = 4 and ¼ on m = 0 -/
+example : inverseSsrbWeights [0, 4, 8] 3 (1 / 10000) = some [(0, 1 / 4), (1, 3 / 4)] := by decide +kernel
 
 /-! ## non-vacuity -/
 
